@@ -8,6 +8,7 @@
 From Coq Require Import Lia ZifyBool ZifyN.
 From Qv Require Import Common.Bytes Common.ReplyTpl Gen.GenNetio Gen.GenReplies Model.NetWriten Model.ReplySites
   Spec.ReplySpec Spec.ReplySitesSpec Proofs.NetWritenProofs.
+From Qv Require Import Proofs.ReplyTables.
 
 (** ** small facts *)
 Lemma no_crlf_b_iff l : no_crlf_b l = true <-> no_crlf l.
@@ -368,15 +369,11 @@ Proof.
   apply filter_In in Hin as [Hin _]. exists key, f. exact Hin.
 Qed.
 
-Lemma writen_templates_ok : forallb (fun e => template_ok (snd e)) writen_templates = true.
-Proof. vm_compute. reflexivity. Qed.
 
-Lemma multiline_templates_ok :
-  forallb (fun e => ml_template_ok (snd e) && Nat.ltb (length (snd e)) ML_CAPACITY) multiline_templates = true.
-Proof. vm_compute. reflexivity. Qed.
 
-Lemma netwrite_literals_ok : forallb (fun e => literal_reply_ok (snd e)) netwrite_literals = true.
-Proof. vm_compute. reflexivity. Qed.
+
+
+
 
 (** cb_nomail, for every text the control file can hold: no crash, a valid reply with the file's own
     code or a ten octet code of the server, carrying the sanitised text completely and in order *)
@@ -460,4 +457,92 @@ Proof.
     + unfold no_crlf. apply Forall_app. split; [repeat constructor; discriminate|].
       apply Forall_forall. intros b Hb. apply repeat_spec in Hb. subst. split; discriminate.
     + intros lit. vm_compute. reflexivity.
+Qed.
+
+(** ** 6. replies assembled from several calls *)
+Lemma open_scan_sound : forall fuel code s out,
+  open_scan fuel code s = true -> conc_rel s out ->
+  exists texts, out = concat (map (dashline code) texts)
+    /\ Forall (fun t => length t <= 506) texts /\ Forall no_crlf texts.
+Proof.
+  induction fuel as [|f IH]; intros code s out H Hc; [discriminate|].
+  cbn [open_scan] in H.
+  destruct s as [|[a| |] [|[b| |] [|[c| |] [|[sep| |] body]]]]; try discriminate.
+  - inversion Hc; subst. exists []. repeat split; constructor.
+  - apply andb_true_iff in H as [H Hb]. apply andb_true_iff in H as [Hcode Hsep].
+    apply bytes_eqb_eq in Hcode. apply N.eqb_eq in Hsep. subst sep.
+    destruct (body_scan body 0) as [[ub rest]|] eqn:Eb; [|discriminate].
+    apply andb_true_iff in Hb as [Hub Hrest]. apply Nat.leb_le in Hub.
+    inversion Hc as [|? ? r1 Hc1| |]; subst. inversion Hc1 as [|? ? r2 Hc2| |]; subst.
+    inversion Hc2 as [|? ? r3 Hc3| |]; subst. inversion Hc3 as [|? ? r4 Hc4| |]; subst.
+    destruct (body_scan_sound _ _ _ _ _ Eb Hc4) as (t & out' & -> & Hr & Ht & Hlen).
+    destruct (IH _ _ _ Hrest Hr) as (ts & -> & Hlens & Hclean).
+    exists (t :: ts). repeat split; try (constructor; assumption || lia).
+    cbn [map concat]. unfold dashline. rewrite <- !app_assoc. reflexivity.
+Qed.
+
+Lemma render_app_dash code c a texts : texts <> [] ->
+  concat (render code c (a ++ texts)) = concat (map (dashline code) a) ++ concat (render code c texts).
+Proof.
+  intros Hne. induction a as [|x a IH]; [reflexivity|].
+  rewrite <- app_comm_cons. cbn [map concat].
+  destruct (a ++ texts) as [|y r] eqn:E; [destruct a; [contradiction|discriminate]|].
+  change (render code c (x :: y :: r)) with ((code ++ [DASH] ++ x ++ CRLF) :: render code c (y :: r)).
+  cbn [concat]. rewrite IH. unfold dashline. rewrite <- !app_assoc. reflexivity.
+Qed.
+
+Lemma split_last_spec : forall ps front last, split_last ps = Some (front, last) -> ps = front ++ [last].
+Proof.
+  induction ps as [|p r IH]; intros front last H; [discriminate|].
+  destruct r as [|q r'].
+  - inversion H. reflexivity.
+  - change (split_last (p :: q :: r')) with
+      (match split_last (q :: r') with Some (a, l) => Some (p :: a, l) | None => None end) in H.
+    destruct (split_last (q :: r')) as [[a l]|] eqn:E; [|discriminate].
+    inversion H; subst. rewrite (IH a last eq_refl). reflexivity.
+Qed.
+
+Lemma lits_of_spec : forall ps pre, lits_of ps = Some pre -> ps = map PLit pre.
+Proof.
+  induction ps as [|p r IH]; intros pre H; [inversion H; reflexivity|].
+  destruct p as [b| |]; try discriminate. cbn [lits_of] in H.
+  destruct (lits_of r) as [l|] eqn:E; [|discriminate]. inversion H; subst. rewrite (IH l eq_refl). reflexivity.
+Qed.
+
+Theorem seq_ok_sound ps : seq_ok ps = true -> seq_valid ps.
+Proof.
+  unfold seq_ok. intros H.
+  destruct (split_last ps) as [[front last]|] eqn:Es; [|discriminate].
+  destruct (lits_of front) as [pre|] eqn:El; [|discriminate].
+  exists pre, last. split; [rewrite (split_last_spec _ _ _ Es), (lits_of_spec _ _ El); reflexivity|].
+  destruct last as [b|t|t].
+  - apply literal_reply_ok_sound. exact H.
+  - apply andb_true_iff in H as [Ht Ho]. intros args HF.
+    destruct (template_ok_valid _ _ Ht HF) as (s0 & parts & code & t0 & ls & -> & Hs0 & Hc & Hd & Hrun & texts & Hne & Hls & _ & Hlens & Hclean).
+    exists s0, parts, ls. split; [reflexivity|]. split; [exact Hrun|].
+    destruct t as [|[l0|c0] t']; try discriminate.
+    inversion HF as [|? ? ? ? He _]; subst. inversion He; subst.
+    assert (Hcode : firstn 3 (code ++ [SP] ++ t0) = code).
+    { rewrite <- Hc. rewrite firstn_app, Nat.sub_diag. cbn [firstn]. rewrite app_nil_r. apply firstn_all. }
+    rewrite Hcode in Ho. unfold open_ok in Ho.
+    destruct (open_scan_sound _ _ _ _ Ho (conc_rel_lit (concat pre))) as (ts0 & Hpre & Hl0 & Hc0).
+    exists code, (ts0 ++ texts). split; [destruct ts0; [exact Hne|discriminate]|].
+    split; [rewrite (render_app_dash _ _ _ _ Hne), Hpre; reflexivity|].
+    split; [exact Hc|]. split; [exact Hd|]. split; apply Forall_app; split; assumption.
+  - apply andb_true_iff in H as [Hml H].
+    destruct (syms_of_tpl t) as [s|] eqn:Et; [|discriminate]. intros args HF.
+    pose proof (ml_template_ok_sound _ _ Hml HF) as Hself.
+    assert (Hne : args <> []).
+    { intros ->. destruct Hself as (code & texts & Hne & Hout & Hc & _). destruct texts as [|x [|y ts]]; [contradiction| |];
+        cbn [render concat] in Hout; destruct code; try discriminate; simpl in Hc; discriminate. }
+    split; [exact (net_write_multiline_ok _ Hne Hself)|].
+    apply (sym_ok_sound _ _ H). apply conc_rel_app; [apply conc_rel_lit|]. eapply conc_rel_tpl; eauto.
+Qed.
+
+
+
+Theorem thm_reply_sequences : Forall (fun e => seq_valid (snd e)) reply_sequences.
+Proof.
+  apply Forall_forall. intros e He. apply seq_ok_sound.
+  pose proof reply_sequences_ok as H. rewrite forallb_forall in H. exact (H e He).
 Qed.
